@@ -15,18 +15,23 @@ def nodeEv : Ev → Bool
 theorem isNodeEv_replayRaw (e : Ev) : Spec.isNodeEv (replayRaw e) = nodeEv e := by
   cases e <;> rfl
 
-theorem observe_events_le {e e' : Enf} {raw : Raw} (h : e.observe raw = .ok e') :
+/-- (whole-input policy; under the per-document policy stream framing is not counted and a `DocumentStart` is
+counted from zero) -/
+theorem observe_events_le {e e' : Enf} {raw : Raw} (h : e.observe raw = .ok e') (hpd : e.perDocument = false) :
     e.report.events + 1 ≤ e.lim.maxEvents := by
+  rw [C07.observe_of_not_pd e raw hpd] at h
   by_cases hc : e.report.events + 1 > e.lim.maxEvents
-  · simp [Enf.observe, hc] at h
+  · simp [Enf.observeCounted, hc] at h
   · omega
 
-theorem observe_nodes_le {e e' : Enf} {raw : Raw} (h : e.observe raw = .ok e') (hn : Spec.isNodeEv raw = true) :
+theorem observe_nodes_le {e e' : Enf} {raw : Raw} (h : e.observe raw = .ok e') (hpd : e.perDocument = false)
+    (hn : Spec.isNodeEv raw = true) :
     e.report.nodes + 1 ≤ e.lim.maxNodes := by
+  rw [C07.observe_of_not_pd e raw hpd] at h
   by_cases hc : e.report.nodes + 1 > e.lim.maxNodes
   · by_cases hc2 : e.report.events + 1 > e.lim.maxEvents
-    · simp [Enf.observe, hc2] at h
-    · cases raw <;> simp [Spec.isNodeEv] at hn <;> simp [Enf.observe, Enf.bumpNodes, hc, hc2] at h
+    · simp [Enf.observeCounted, hc2] at h
+    · cases raw <;> simp [Spec.isNodeEv] at hn <;> simp [Enf.observeCounted, Enf.bumpNodes, hc, hc2] at h
   · omega
 
 /-- a successful `observe` under the all-content policy -/
@@ -35,8 +40,8 @@ theorem observe_counts {e e' : Enf} {raw : Raw} (h : e.observe raw = .ok e') (hp
       e'.report.events ≤ e.lim.maxEvents ∧
       e'.report.nodes = e.report.nodes + (if Spec.isNodeEv raw then 1 else 0) ∧
       (Spec.isNodeEv raw = true → e'.report.nodes ≤ e.lim.maxNodes) := by
-  have h1 := observe_events_le h
-  have h2 := observe_nodes_le h
+  have h1 := observe_events_le h hpd
+  have h2 := observe_nodes_le h hpd
   obtain ⟨rfl, -⟩ := C07.observe_ok h
   refine ⟨by simpa using hpd, by simp, ?_, ?_, ?_, ?_⟩
   · simp [C07.next, hpd]
